@@ -7,7 +7,7 @@ CONSTANTS
   Weak = {}
   ValSeq <- GValSeq
   NParts = 2
-  Weak_NoCatchupCommitParts = TRUE
+  Weak_NoCatchupCommitParts = FALSE
   Weak_SkipPOLPrevotes = FALSE
   Weak_HasVoteNotRecorded = FALSE
   Weak_Maj23QueryOnlyCurrentRound = FALSE
@@ -18,8 +18,8 @@ CONSTANTS
   Weak_NewValidBlockIgnored = FALSE
   Weak_InitMarksPartsHad = FALSE
   Weak_VoteMarkedBeforeRoundCheck = FALSE
-  Code_POLShadowedByCatchupRound = TRUE
-  AllowedGaps <- AllGaps
+  Code_POLShadowedByCatchupRound = FALSE
+  AllowedGaps <- NoG6
   NodeMenu <- NVNode
   PeerMenu <- NVPeer
   Modes = {"fresh", "live"}
